@@ -266,7 +266,7 @@ class Ctx:
         os.makedirs(wd, exist_ok=True)
         try:
             p1 = subprocess.Popen([self.vh(variant)], stdin=subprocess.PIPE, stdout=subprocess.PIPE, stderr=subprocess.DEVNULL,
-                                  cwd=wd, env=dict(os.environ, VH_TIMEOUT_MS=str(timeout_ms), ASAN_OPTIONS='detect_leaks=0:abort_on_error=1', UBSAN_OPTIONS='halt_on_error=1:abort_on_error=1'))
+                                  cwd=wd, env=dict(os.environ, VH_TIMEOUT_MS=str(timeout_ms), VH_MAX_TIMEOUTS=('5' if getattr(self, '_retrying', False) else '10'), ASAN_OPTIONS='detect_leaks=0:abort_on_error=1', UBSAN_OPTIONS='halt_on_error=1:abort_on_error=1'))
             p2 = None
             if model:
                 p2 = subprocess.Popen([self.driver()], stdin=subprocess.PIPE, stdout=subprocess.PIPE, stderr=subprocess.DEVNULL, cwd=wd)
@@ -301,14 +301,22 @@ class Ctx:
         impl = parse(res.get('impl', b''))
         # A time-out may be the machine's, not the implementation's (other processes side by side): the cases that
         # timed out run once more, alone, with three times the limit. A real hang times out again.
-        late = [ln for ln in lines if impl.get(ln.split(' ')[1] if ' ' in ln else '', '') == 'timeout']
-        if late and len(late) <= 200 and not getattr(self, '_retrying', False):
+        # After ten time-outs the harness answers "timeout-skipped" without running the case (a change that makes most
+        # cases hang must not cost cases x limit); the first forty of the late and skipped cases are run again. A case that
+        # is still skipped then counts as timed out.
+        late = [ln for ln in lines if impl.get(ln.split(' ')[1] if ' ' in ln else '', '') in ('timeout', 'timeout-skipped')]
+        if late and not getattr(self, '_retrying', False):
             self._retrying = True
             try:
-                again, _ = self.run_pair(late, variant=variant, timeout_ms=timeout_ms * 3, model=False, tag=tag)
+                again, _ = self.run_pair(late[:40], variant=variant, timeout_ms=timeout_ms * 3, model=False, tag=tag)
                 impl.update(again)
             finally:
                 self._retrying = False
+            for ln in late:
+                k = ln.split(' ')[1]
+                if impl.get(k) == 'timeout-skipped':
+                    impl[k] = 'timeout'
+            self.notes.append('%d cases timed out or were skipped behind time-outs (%s)' % (len(late), tag))
         return impl, parse(res.get('model', b''))
 
     def elapsed(self):
